@@ -49,3 +49,34 @@ Theorem c16_no_new_uuids : forall now d s d' lg,
   merge now d s = Ok (d', lg) ->
   incl (tree_uuids (db_root d')) (tree_uuids (db_root d) ++ tree_uuids (db_root s)).
 Proof. exact merge_no_new_uuids. Qed.
+
+(* ---------------- soundness of the whole tree (db/MergeUnique.v) ----------------
+   For replicas of one database (same root UUID) whose UUIDs are pairwise distinct, a successful
+   merge leaves the UUIDs pairwise distinct; the root stays the root; every UUID of the destination
+   is still present or its deletion is in the log; every UUID of the result was there before or its
+   creation is in the log; and merge never runs out of fuel.  Each hypothesis is shown necessary by
+   a computed counter-example in MergeUnique.v (cx1 .. cx6). *)
+From KP Require Import MergeSelf MergeUnique.
+Theorem c16_merge_keeps_unique : forall now d s d' lg,
+  uuids_ok d -> uuids_ok s -> gi_uuid (db_root_info d) = gi_uuid (db_root_info s) ->
+  merge now d s = Ok (d', lg) -> uuids_ok d'.
+Proof. exact merge_keeps_unique. Qed.
+
+Theorem c16_merge_keeps_root : forall now d s d' lg,
+  merge now d s = Ok (d', lg) -> gi_uuid (db_root_info d') = gi_uuid (db_root_info d).
+Proof. exact merge_keeps_root. Qed.
+
+Theorem c16_merge_conserves : forall now d s d' lg,
+  uuids_unique (db_children d) -> merge now d s = Ok (d', lg) ->
+  forall u, In u (tree_uuids (db_root d)) ->
+    In u (tree_uuids (db_root d')) \/ In (Ev EntryDeleted u) lg \/ In (Ev GroupDeleted u) lg.
+Proof. exact merge_conserves. Qed.
+
+Theorem c16_merge_result_origin : forall now d s d' lg,
+  uuids_unique (db_children d) -> merge now d s = Ok (d', lg) ->
+  forall u, In u (tree_uuids (db_root d')) ->
+    In u (tree_uuids (db_root d)) \/ In (Ev EntryCreated u) lg \/ In (Ev GroupCreated u) lg.
+Proof. exact merge_result_origin. Qed.
+
+Theorem c16_merge_never_out_of_fuel : forall now d s, uuids_ok d -> merge now d s <> OutOfFuel.
+Proof. exact merge_never_out_of_fuel. Qed.
